@@ -13,7 +13,8 @@
        ExclusiveBuffer.*   a buffer handed out while held / touched by a render that does not hold it
                            (flush after release = Put before the last use)
        NoCarryOver.*       an acquired buffer is not empty with a nil error / not attached to this render's writer
-       OneOwner.*          a nested component acquired a second buffer, a render returned while holding one *)
+       OneOwner.*          a second buffer acquired for a destination the render already buffers, a render returned
+                           while holding one (acquired but never flushed and released)                              *)
 EXTENDS Integers, Sequences, FiniteSets, TLC, Json, RenderPoolOps
 
 CONSTANTS NB,         \* buffer object ids are 1..NB (informative only)
@@ -21,8 +22,8 @@ CONSTANTS NB,         \* buffer object ids are 1..NB (informative only)
 
 Trace == ndJsonDeserialize("trace.ndjson")
 
-VARIABLES i, hr, hb, active, viol, vcnt, cnt
-vars == <<i, hr, hb, active, viol, vcnt, cnt>>
+VARIABLES i, hr, hb, dest, active, viol, vcnt, cnt
+vars == <<i, hr, hb, dest, active, viol, vcnt, cnt>>
 
 Kinds == {"begin", "end", "acquire", "existing", "flush", "release", "get", "put"}
 VKinds == {"Harness.RenderBeginTwice", "OneOwner.HeldAfterReturn", "OneOwner.SecondAcquire",
@@ -31,7 +32,7 @@ VKinds == {"Harness.RenderBeginTwice", "OneOwner.HeldAfterReturn", "OneOwner.Sec
            "NoCarryOver.DirtyAcquire", "NoCarryOver.WrongWriter", "NoCarryOver.DirtyBytesBuffer", "NoCarryOver.PutWithoutReset"}
 
 Init == /\ i = 0
-        /\ hr = {} /\ hb = {}
+        /\ hr = {} /\ hb = {} /\ dest = {}
         /\ active = {} /\ viol = <<>>
         /\ vcnt = [k \in VKinds |-> 0]
         /\ cnt = [k \in Kinds |-> 0]
@@ -49,8 +50,11 @@ Fired(e, r, b) ==
       [] e.ev = "end"      -> P(Holds(hr, r) \/ Holds(hb, r), "OneOwner.HeldAfterReturn")
       [] e.ev = "acquire"  -> P(~GetLegal(hr, r, b), "ExclusiveBuffer.AcquireWhileHeld")          \* GetBuffer: Get + Reset
                               \o P(IsDirty(e), "NoCarryOver.DirtyAcquire")
-                              \o P(CheckWriter /\ WriterOf(e) # 0 /\ WriterOf(e) # r, "NoCarryOver.WrongWriter")
-                              \o P(Holds(hr, r), "OneOwner.SecondAcquire")
+                              \* the render's own writer has id r; a writer private to a hand-written component has a negative id
+                              \o P(CheckWriter /\ WriterOf(e) > 0 /\ WriterOf(e) # r, "NoCarryOver.WrongWriter")
+                              \* a render buffers each destination once: nested components reuse the buffer, only a block
+                              \* rendered into another writer acquires (and flushes, releases) one more
+                              \o P(IF WriterOf(e) = 0 THEN Holds(hr, r) ELSE <<r, WriterOf(e)>> \in dest, "OneOwner.SecondAcquire")
       [] e.ev = "existing" -> P(~UseLegal(hr, r, b), "ExclusiveBuffer.UseNotHeld")                \* GetBuffer: the writer already is a *Buffer
       [] e.ev = "flush"    -> P(~UseLegal(hr, r, b), "ExclusiveBuffer.UseAfterRelease")           \* ReleaseBuffer: b.Flush()
       [] e.ev = "release"  -> P(~UseLegal(hr, r, b), "ExclusiveBuffer.ReleaseNotHeld")            \* ReleaseBuffer: bufferPool.Put(b)
@@ -83,6 +87,10 @@ Step ==
        /\ active' = CASE e.ev = "begin" -> active \cup {r} [] e.ev = "end" -> active \ {r} [] OTHER -> active
        /\ hr' = CASE e.ev = "acquire" -> HGet(hr, r, b) [] e.ev = "release" -> HDrop(hr, r, b) [] OTHER -> hr
        /\ hb' = CASE e.ev = "get" -> HGet(hb, r, b) [] e.ev = "put" -> HDrop(hb, r, b) [] OTHER -> hb
+       /\ dest' = CASE e.ev = "acquire" -> dest \cup {<<r, WriterOf(e)>>}
+                    [] e.ev = "release" -> dest \ {<<r, WriterOf(e)>>}
+                    [] e.ev = "end" -> {x \in dest : x[1] # r}
+                    [] OTHER -> dest
 
 Next == Step
 Spec == Init /\ [][Next]_vars
